@@ -156,6 +156,10 @@ func (w *World) verifyFunc(key string, timeout int, all bool, only string) (*fun
 			defer func() { <-sem }()
 			q := vc.Query(o)
 			o.Query = q
+			o.StrLits = map[string]string{"str.empty": ""}
+			for text, sym := range vc.strLits {
+				o.StrLits[sym] = text
+			}
 			if d := os.Getenv("GOVC_DUMP"); d != "" {
 				os.MkdirAll(d, 0o755)
 				os.WriteFile(filepath.Join(d, mangle(o.Name)+".smt2"), []byte(q), 0o644)
@@ -164,8 +168,16 @@ func (w *World) verifyFunc(key string, timeout int, all bool, only string) (*fun
 			o.Result, o.Backend, o.Ms = r.verdict, r.backend, r.ms
 			if r.verdict == "sat" {
 				o.Model = getModel(q, timeout)
+				o.ModelQuery = q
 			} else if r.verdict != "unsat" {
 				o.Model = r.output
+				// candidate counterexample: drop quantified facts (sound only for *finding* inputs, which are then replayed)
+				qf := dropQuantified(q)
+				if r2 := runSolver(solvers[0], qf, timeout); r2.verdict == "sat" {
+					o.Model = "candidate model (quantified axioms dropped; must be confirmed by replay)\n" + getModel(qf, timeout)
+					o.ModelQuery = qf
+					o.Candidate = true
+				}
 			}
 		}(o)
 	}
@@ -261,6 +273,17 @@ func main() {
 		fmt.Fprintln(os.Stderr, "unknown command", os.Args[1])
 		os.Exit(2)
 	}
+}
+
+func dropQuantified(q string) string {
+	var out []string
+	for _, l := range strings.Split(q, "\n") {
+		if strings.HasPrefix(l, "(assert") && (strings.Contains(l, "(forall ") || strings.Contains(l, "(exists ")) && !strings.HasPrefix(l, "(assert (not ") {
+			continue
+		}
+		out = append(out, l)
+	}
+	return strings.Join(out, "\n")
 }
 
 func must(err error) {
